@@ -578,6 +578,10 @@ class BiproportionalEvaluator:
         # Iterate the tie-and-transfer algorithm.
         while True:
             if os.environ.get('VOTELIB_VERIF'):
+                if len(self._verif_trace) >= 5000:
+                    # keep the record bounded: the latest state replaces
+                    # the last one
+                    self._verif_trace.pop()
                 self._verif_trace.append((
                     {d: dict(r) for d, r in result.items()},
                     dict(district_coefs),
